@@ -213,3 +213,73 @@ pub fn ref_closure<T: Scalar>(
     );
     res.closed
 }
+
+/// Deterministic base histories that fill and slide a window of length n before an
+/// exhaustively enumerated suffix: a staircase with ties, a zig-zag with zeros and both
+/// signs, and a descent into a flat stretch.
+pub fn bases(n: usize) -> Vec<Vec<f64>> {
+    let l = 2 * n + 1;
+    vec![
+        (0..l).map(|i| ((i / 2) % 4) as f64 - 1.0).collect(),
+        (0..l).map(|i| [1.0, -1.0, 0.0, 0.0, 1.0, 1.0, -1.0, 2.0, -2.0][i % 9]).collect(),
+        (0..l).map(|i| if i < n { (n - i) as f64 } else { 0.0 }).collect(),
+    ]
+}
+
+/// Larger windows than a TREE from the empty history can fill: for every base history, the
+/// oracle is evaluated along the base, and then at every node of TREE(alpha^<=depth) grown from
+/// the state the base leaves behind. The exhaustive dimension is the suffix.
+pub fn ref_tree_from_bases<T: Scalar>(
+    property: &str,
+    spec: &Spec,
+    base_list: &[Vec<f64>],
+    alpha: &[f64],
+    depth: usize,
+    st: &mut Stats,
+    sink: &Sink,
+    oracle: &Oracle<T>,
+) {
+    for base in base_list {
+        T::reset_arena();
+        let c0 = T::inexact();
+        let v = build::<T>(spec);
+        let mut root = RefState { v, tainted: T::inexact() > c0 };
+        st.configs += 1;
+        let mut ok = true;
+        for i in 0..base.len() {
+            let r = crate::explore::guard(|| eval_node(property, spec, &mut root, &base[..=i], st, oracle, sink));
+            match r {
+                Ok(Step::Go) => {}
+                Ok(Step::Prune) => {
+                    ok = false;
+                    break;
+                }
+                Err(m) => {
+                    sink.push(panic_violation(property, spec, T::NAME, &base[..=i], m));
+                    ok = false;
+                    break;
+                }
+            }
+        }
+        st.states += base.len() as u64;
+        if !ok {
+            continue;
+        }
+        tree::<T, RefState<T>>(
+            &root,
+            alpha,
+            depth,
+            st,
+            &mut |s, hist, st| {
+                let mut full = base.clone();
+                full.extend_from_slice(hist);
+                eval_node(property, spec, s, &full, st, oracle, sink)
+            },
+            &mut |hist, msg| {
+                let mut full = base.clone();
+                full.extend_from_slice(hist);
+                sink.push(panic_violation(property, spec, T::NAME, &full, msg))
+            },
+        );
+    }
+}
